@@ -125,24 +125,24 @@ Proof.
 Qed.
 
 (** what has_broken lets through is clean *)
-Lemma not_broken_clean l b : tracksb l b = true -> has_broken l = false -> clean b = true.
+Lemma not_broken_clean c0 l b : tracksb l b = true -> has_broken c0 l = false -> clean c0 b = true.
 Proof.
   intros H1 H2.
-  assert (G: forallb (fun b => forallb (fun l => implb (tracksb l b && negb (has_broken l)) (clean b)) all_bel) all_bt = true)
+  assert (G: forallb (fun c0 => forallb (fun b => forallb (fun l => implb (tracksb l b && negb (has_broken c0 l)) (clean c0 b)) all_bel) all_bt) all_bool = true)
     by (vm_compute; reflexivity).
-  rewrite forallb_forall in G. specialize (G b (in_all_bt b)). rewrite forallb_forall in G.
+  rewrite forallb_forall in G. specialize (G c0 (in_all_bool c0)). rewrite forallb_forall in G. specialize (G b (in_all_bt b)). rewrite forallb_forall in G.
   specialize (G l (in_all_bel l)). rewrite H1, H2 in G. exact G.
 Qed.
 
 (** checkin_cleanup keeps the belief right, and what it leaves un-broken is clean *)
-Lemma cleanup_tracks k s : tracksb (belief k) (truth k) = true ->
-  tracksb (belief (fst (cleanup k s))) (truth (fst (cleanup k s))) = true.
+Lemma cleanup_tracks c0 k s : tracksb (belief k) (truth k) = true ->
+  tracksb (belief (fst (cleanup c0 k s))) (truth (fst (cleanup c0 k s))) = true.
 Proof.
   intros H.
-  assert (G: forallb (fun b => forallb (fun l => implb (tracksb l b)
-      (let k' := fst (cleanup {| truth := b; belief := l; loc := Idle |} 0) in tracksb (belief k') (truth k'))) all_bel) all_bt = true)
+  assert (G: forallb (fun c0 => forallb (fun b => forallb (fun l => implb (tracksb l b)
+      (let k' := fst (cleanup c0 {| truth := b; belief := l; loc := Idle |} 0) in tracksb (belief k') (truth k'))) all_bel) all_bt) all_bool = true)
     by (vm_compute; reflexivity).
-  rewrite forallb_forall in G. specialize (G (truth k) (in_all_bt _)). rewrite forallb_forall in G.
+  rewrite forallb_forall in G. specialize (G c0 (in_all_bool c0)). rewrite forallb_forall in G. specialize (G (truth k) (in_all_bt _)). rewrite forallb_forall in G.
   specialize (G (belief k) (in_all_bel _)). rewrite H in G. cbn [implb] in G.
   destruct k as [b l lc]. cbn [truth belief] in *.
   unfold cleanup in *. cbn [truth belief loc] in *.
@@ -151,7 +151,7 @@ Proof.
   repeat match goal with |- context [if ?c then _ else _] => destruct c end; exact G.
 Qed.
 
-Lemma cleanup_loc k s : loc (fst (cleanup k s)) = loc k.
+Lemma cleanup_loc c0 k s : loc (fst (cleanup c0 k s)) = loc k.
 Proof.
   unfold cleanup. destruct (in_copy (belief k)); [reflexivity|].
   destruct (in_txn (belief k)); destruct (bexec (truth k) Rollback) as [b' t];
@@ -301,36 +301,36 @@ Proof.
   - rewrite !get_del_other by exact N. apply H.
 Qed.
 
-Lemma monitor_heq : forall ev h1 h2 h1', heq h1 h2 -> monitor h1 ev = Some h1' ->
-  exists h2', monitor h2 ev = Some h2' /\ heq h1' h2'.
+Lemma monitor_heq c0 : forall ev h1 h2 h1', heq h1 h2 -> monitor c0 h1 ev = Some h1' ->
+  exists h2', monitor c0 h2 ev = Some h2' /\ heq h1' h2'.
 Proof.
   induction ev as [|e r IH]; intros h1 h2 h1' He Hm; cbn [monitor] in *.
   - inversion Hm; subst. eauto.
   - destruct e as [s c b|s c ss|s x y z|s b|s|c|c]; try (rewrite <- (He s)).
     + destruct (get s h1) as [[c'|]|]; try discriminate.
-      * destruct (clean b); [|discriminate]. eapply IH; [apply heq_put; exact He|exact Hm].
-      * destruct (clean b); [|discriminate]. eapply IH; [apply heq_put; exact He|exact Hm].
+      * destruct (clean c0 b); [|discriminate]. eapply IH; [apply heq_put; exact He|exact Hm].
+      * destruct (clean c0 b); [|discriminate]. eapply IH; [apply heq_put; exact He|exact Hm].
     + destruct (get s h1) as [[c'|]|]; try discriminate.
       destruct (Nat.eqb c c'); [|discriminate]. eapply IH; eauto.
     + destruct (get s h1) as [[c'|]|]; try discriminate. eapply IH; eauto.
     + destruct (get s h1) as [[c'|]|]; try discriminate.
-      destruct (clean b); [|discriminate]. eapply IH; [apply heq_put; exact He|exact Hm].
+      destruct (clean c0 b); [|discriminate]. eapply IH; [apply heq_put; exact He|exact Hm].
     + eapply IH; [apply heq_del; exact He|exact Hm].
     + eapply IH; eauto.
     + eapply IH; eauto.
 Qed.
 
-Lemma monitor_app : forall e1 e2 h h1, monitor h e1 = Some h1 -> monitor h (e1 ++ e2) = monitor h1 e2.
+Lemma monitor_app c0 : forall e1 e2 h h1, monitor c0 h e1 = Some h1 -> monitor c0 h (e1 ++ e2) = monitor c0 h1 e2.
 Proof.
   induction e1 as [|e r IH]; intros e2 h h1 H; cbn [monitor app] in *.
   - inversion H; reflexivity.
   - destruct e as [s c b|s c ss|s x y z|s b|s|c|c].
     + destruct (get s h) as [[c'|]|]; try discriminate.
-      * destruct (clean b); [|discriminate]. eapply IH; exact H.
-      * destruct (clean b); [|discriminate]. eapply IH; exact H.
+      * destruct (clean c0 b); [|discriminate]. eapply IH; exact H.
+      * destruct (clean c0 b); [|discriminate]. eapply IH; exact H.
     + destruct (get s h) as [[c'|]|]; try discriminate. destruct (Nat.eqb c c'); [|discriminate]. eapply IH; exact H.
     + destruct (get s h) as [[c'|]|]; try discriminate. eapply IH; exact H.
-    + destruct (get s h) as [[c'|]|]; try discriminate. destruct (clean b); [|discriminate]. eapply IH; exact H.
+    + destruct (get s h) as [[c'|]|]; try discriminate. destruct (clean c0 b); [|discriminate]. eapply IH; exact H.
     + eapply IH; exact H.
     + eapply IH; exact H.
     + eapply IH; exact H.
@@ -341,22 +341,23 @@ Definition J (st : state) : Prop :=
   NoDup (map fst (conns st)) /\
   (forall s k, get s (conns st) = Some k -> s < next st) /\
   (forall s k, get s (conns st) = Some k ->
-     tracksb (belief k) (truth k) = true /\ (loc k = Idle -> has_broken (belief k) = false)).
+     tracksb (belief k) (truth k) = true /\ (loc k = Idle -> has_broken (cc st) (belief k) = false)).
 
 Definition K (st : state) : Prop :=
   forall c cl s, get c (clients st) = Some cl -> cst cl = Inner s ->
     exists k, get s (conns st) = Some k /\ loc k = Held c.
 
 Definition ok (st : state) (res : state * list event) : Prop :=
-  (exists h', monitor (holders st) (snd res) = Some h' /\ heq h' (holders (fst res))) /\ J (fst res) /\ K (fst res).
+  (exists h', monitor (cc st) (holders st) (snd res) = Some h' /\ heq h' (holders (fst res))) /\ J (fst res) /\ K (fst res) /\ cc (fst res) = cc st.
 
 Lemma ok_seq st st1 ev1 st2 ev2 : ok st (st1, ev1) -> ok st1 (st2, ev2) -> ok st (st2, ev1 ++ ev2).
 Proof.
-  intros [(h1 & M1 & E1) _] [(h2 & M2 & E2) [J2 K2]]. cbn [fst snd] in *.
-  split; [|split; assumption]. cbn [fst snd].
-  rewrite (monitor_app _ _ _ _ M1).
+  intros [(h1 & M1 & E1) (_ & _ & C1)] [(h2 & M2 & E2) (J2 & K2 & C2)]. unfold ok. cbn [fst snd] in *.
+  split; [|split; [assumption|split; [assumption|congruence]]].
+  rewrite C1 in M2.
+  rewrite (monitor_app _ _ _ _ _ M1).
   assert (E1': heq (holders st1) h1) by (intros s; symmetry; apply E1).
-  destruct (monitor_heq _ _ _ _ E1' M2) as (h2' & M2' & E2').
+  destruct (monitor_heq _ _ _ _ _ E1' M2) as (h2' & M2' & E2').
   exists h2'. split; [exact M2'|]. intros s. rewrite <- E2'. apply E2.
 Qed.
 
@@ -375,7 +376,7 @@ Proof.
 Qed.
 
 Lemma J_set_conn st s k k0 : J st -> get s (conns st) = Some k0 ->
-  tracksb (belief k) (truth k) = true -> (loc k = Idle -> has_broken (belief k) = false) -> J (set_conn st s k).
+  tracksb (belief k) (truth k) = true -> (loc k = Idle -> has_broken (cc st) (belief k) = false) -> J (set_conn st s k).
 Proof.
   intros (N & B & T) G Ht Hi. split; [|split].
   - apply nodup_put. exact N.
@@ -441,23 +442,25 @@ Qed.
 Lemma heq_refl {A} (h : list (nat * A)) : heq h h. Proof. intros s; reflexivity. Qed.
 
 Lemma put_back_facts st s k c : J st -> get s (conns st) = Some k -> loc k = Held c ->
-  (exists h', monitor (holders st) (snd (put_back st s)) = Some h' /\ heq h' (holders (fst (put_back st s)))) /\
+  (exists h', monitor (cc st) (holders st) (snd (put_back st s)) = Some h' /\ heq h' (holders (fst (put_back st s)))) /\
   J (fst (put_back st s)) /\
   (forall s', s' <> s -> get s' (conns (fst (put_back st s))) = get s' (conns st)) /\
   clients (fst (put_back st s)) = clients st /\
-  (forall k', get s (conns (fst (put_back st s))) = Some k' -> loc k' = Idle).
+  (forall k', get s (conns (fst (put_back st s))) = Some k' -> loc k' = Idle) /\
+  cc (fst (put_back st s)) = cc st.
 Proof.
   intros HJ G L. pose proof HJ as (N & B & T). destruct (T _ _ G) as [Ht _].
-  unfold put_back. rewrite G. destruct (has_broken (belief k)) eqn:Hb; cbn [fst snd].
-  - split; [|split; [|split; [|split]]].
+  unfold put_back. rewrite G. destruct (has_broken (cc st) (belief k)) eqn:Hb; cbn [fst snd].
+  - split; [|split; [|split; [|split; [|split]]]].
     + cbn [monitor]. eexists. split; [reflexivity|]. rewrite holders_drop_conn. apply heq_refl.
     + apply J_drop_conn; exact HJ.
     + intros s' Ne. unfold drop_conn. cbn [conns]. apply get_del_other; exact Ne.
     + reflexivity.
     + intros k'. unfold drop_conn. cbn [conns]. rewrite get_del_same. discriminate.
-  - split; [|split; [|split; [|split]]].
+    + reflexivity.
+  - split; [|split; [|split; [|split; [|split]]]]; [| | | | |reflexivity].
     + cbn [monitor]. rewrite get_holders, G. cbn [option_map]. unfold hold. rewrite L.
-      rewrite (not_broken_clean _ _ Ht Hb). eexists. split; [reflexivity|].
+      rewrite (not_broken_clean _ _ _ Ht Hb). eexists. split; [reflexivity|].
       rewrite holders_set_conn. unfold hold. cbn [loc]. apply heq_refl.
     + eapply J_set_conn; [exact HJ|exact G|exact Ht|]. cbn [belief]. intros _. exact Hb.
     + intros s' Ne. rewrite get_set_conn. destruct (Nat.eqb s' s) eqn:E; [apply Nat.eqb_eq in E; contradiction|reflexivity].
@@ -465,21 +468,22 @@ Proof.
     + intros k'. rewrite get_set_conn, Nat.eqb_refl. intros H. inversion H. reflexivity.
 Qed.
 
-Lemma monitor_snoc_task h ev h' c : monitor h ev = Some h' -> monitor h (ev ++ [TaskEnd c]) = Some h'.
-Proof. intros H. rewrite (monitor_app _ _ _ _ H). reflexivity. Qed.
+Lemma monitor_snoc_task c0 h ev h' c : monitor c0 h ev = Some h' -> monitor c0 h (ev ++ [TaskEnd c]) = Some h'.
+Proof. intros H. rewrite (monitor_app _ _ _ _ _ H). reflexivity. Qed.
 
 (** the guard is dropped and the task ends *)
 Lemma exit_holding_ok st c m s k : J st -> K st -> get s (conns st) = Some k -> loc k = Held c ->
   ok st (exit_holding st c m s).
 Proof.
-  intros HJ HK G L. destruct (put_back_facts st s k c HJ G L) as ((h' & M & E) & J1 & Ho & Hc & Hi).
+  intros HJ HK G L. destruct (put_back_facts st s k c HJ G L) as ((h' & M & E) & J1 & Ho & Hc & Hi & Hcc).
   unfold exit_holding. destruct (put_back st s) as [st1 ev] eqn:P. cbn [fst snd] in *.
-  split; [|split]; cbn [fst snd].
+  split; [|split; [|split]]; cbn [fst snd].
   - exists h'. split; [apply monitor_snoc_task; exact M|]. exact E.
   - exact J1.
   - eapply (K_release st (end_task st1 c m) c s k); eauto.
     + unfold end_task, set_client. cbn [clients]. rewrite Hc. reflexivity.
     + cbn [cst]. discriminate.
+  - exact Hcc.
 Qed.
 
 (** store an updated value for a held connection (no event) *)
@@ -499,10 +503,10 @@ Proof.
   - rewrite get_set_conn, Nat.eqb_refl. reflexivity.
 Qed.
 
-Lemma monitor_cleanup h s c x y z r : get s h = Some (Some c) -> monitor h (Cleanup s x y z :: r) = monitor h r.
+Lemma monitor_cleanup c0 h s c x y z r : get s h = Some (Some c) -> monitor c0 h (Cleanup s x y z :: r) = monitor c0 h r.
 Proof. intros H. cbn [monitor]. rewrite H. reflexivity. Qed.
 
-Lemma cleanup_events k s : snd (cleanup k s) = [] \/ exists x y z, snd (cleanup k s) = [Cleanup s x y z].
+Lemma cleanup_events c0 k s : snd (cleanup c0 k s) = [] \/ exists x y z, snd (cleanup c0 k s) = [Cleanup s x y z].
 Proof.
   unfold cleanup. destruct (in_copy (belief k)); [left; reflexivity|]. right.
   destruct (in_txn (belief k)); destruct (bexec (truth k) Rollback) as [b' t];
@@ -514,34 +518,36 @@ Lemma cleanup_putback_ok st c s k0 k cl' (tail : list event) :
   J st -> K st -> get s (conns st) = Some k0 -> loc k0 = Held c -> loc k = Held c ->
   tracksb (belief k) (truth k) = true -> (forall s2, cst cl' <> Inner s2) ->
   (forall e, In e tail -> exists c', e = TaskEnd c') ->
-  let '(k1, ev1) := cleanup k s in
+  let '(k1, ev1) := cleanup (cc st) k s in
   let '(st1, ev2) := put_back (set_conn st s k1) s in
   ok st (set_client st1 c cl', ev1 ++ ev2 ++ tail).
 Proof.
   intros HJ HK G L0 L Ht Hni Htail.
-  pose proof (cleanup_tracks k s Ht) as Ht1. pose proof (cleanup_loc k s) as Hl1.
-  pose proof (cleanup_events k s) as Hev.
-  destruct (cleanup k s) as [k1 ev1]. cbn [fst snd] in *. rewrite L in Hl1.
+  pose proof (cleanup_tracks (cc st) k s Ht) as Ht1. pose proof (cleanup_loc (cc st) k s) as Hl1.
+  pose proof (cleanup_events (cc st) k s) as Hev.
+  destruct (cleanup (cc st) k s) as [k1 ev1]. cbn [fst snd] in *. rewrite L in Hl1.
   destruct (upd_held_ok st s k0 k1 c HJ HK G L0 Hl1 Ht1) as (J1 & K1 & E1 & G1).
-  destruct (put_back_facts (set_conn st s k1) s k1 c J1 G1 Hl1) as ((h' & M & E) & J2 & Ho & Hc & Hi).
+  destruct (put_back_facts (set_conn st s k1) s k1 c J1 G1 Hl1) as ((h' & M & E) & J2 & Ho & Hc & Hi & Hcc).
   destruct (put_back (set_conn st s k1) s) as [st1 ev2]. cbn [fst snd] in *.
   assert (Hh: get s (holders st) = Some (Some c)).
   { rewrite get_holders, G. cbn [option_map]. unfold hold. rewrite L0. reflexivity. }
-  assert (Mtail: forall h, monitor h tail = Some h).
+  assert (Mtail: forall h, monitor (cc st) h tail = Some h).
   { clear -Htail. induction tail as [|e r IH]; intros h; [reflexivity|].
     destruct (Htail e (or_introl eq_refl)) as (c' & ->). cbn [monitor]. apply IH. intros e0 H0. apply Htail. right; exact H0. }
-  split; [|split]; cbn [fst snd].
+  split; [|split; [|split]]; cbn [fst snd].
   - (* monitor *)
     assert (E1': heq (holders (set_conn st s k1)) (holders st)) by (intros x; symmetry; apply E1).
-    destruct (monitor_heq _ _ _ _ E1' M) as (h2 & M2 & E2).
+    change (cc (set_conn st s k1)) with (cc st) in M.
+    destruct (monitor_heq _ _ _ _ _ E1' M) as (h2 & M2 & E2).
     exists h2. split.
     + destruct Hev as [->|(x & y & z & ->)]; cbn [app].
-      * rewrite (monitor_app _ _ _ _ M2). apply Mtail.
-      * rewrite (monitor_cleanup _ _ c) by exact Hh. rewrite (monitor_app _ _ _ _ M2). apply Mtail.
+      * rewrite (monitor_app _ _ _ _ _ M2). apply Mtail.
+      * rewrite (monitor_cleanup _ _ _ c) by exact Hh. rewrite (monitor_app _ _ _ _ _ M2). apply Mtail.
     + intros x. rewrite <- E2. apply E.
   - exact J2.
   - eapply (K_release (set_conn st s k1) (set_client st1 c cl') c s k1); eauto.
     unfold set_client. cbn [clients]. rewrite Hc. reflexivity.
+  - exact Hcc.
 Qed.
 
 Lemma release_ok st c m s k0 k : J st -> K st -> get s (conns st) = Some k0 -> loc k0 = Held c -> loc k = Held c ->
@@ -549,7 +555,7 @@ Lemma release_ok st c m s k0 k : J st -> K st -> get s (conns st) = Some k0 -> l
 Proof.
   intros HJ HK G L0 L Ht. unfold release.
   pose proof (cleanup_putback_ok st c s k0 k {| cst := Outer; smode := m |} [] HJ HK G L0 L Ht) as H.
-  destruct (cleanup k s) as [k1 ev1]. destruct (put_back (set_conn st s k1) s) as [st1 ev2].
+  destruct (cleanup (cc st) k s) as [k1 ev1]. destruct (put_back (set_conn st s k1) s) as [st1 ev2].
   rewrite app_nil_r in H. apply H; [cbn [cst]; discriminate|intros e []].
 Qed.
 
@@ -558,7 +564,7 @@ Lemma exit_cleanup_ok st c m s k0 k : J st -> K st -> get s (conns st) = Some k0
 Proof.
   intros HJ HK G L0 L Ht. unfold exit_cleanup, end_task.
   pose proof (cleanup_putback_ok st c s k0 k {| cst := Gone; smode := m |} [TaskEnd c] HJ HK G L0 L Ht) as H.
-  destruct (cleanup k s) as [k1 ev1]. destruct (put_back (set_conn st s k1) s) as [st1 ev2].
+  destruct (cleanup (cc st) k s) as [k1 ev1]. destruct (put_back (set_conn st s k1) s) as [st1 ev2].
   apply H; [cbn [cst]; discriminate|]. intros e [<-|[]]. eauto.
 Qed.
 
@@ -569,13 +575,14 @@ Lemma stay_ok st c m s k0 k : J st -> K st -> get s (conns st) = Some k0 -> loc 
 Proof.
   intros HJ HK G L0 L Ht.
   destruct (upd_held_ok st s k0 k c HJ HK G L0 L Ht) as (J1 & K1 & E1 & G1).
-  split; [|split]; cbn [fst snd].
+  split; [|split; [|split]]; cbn [fst snd].
   - exists (holders st). split; [reflexivity|]. exact E1.
   - exact J1.
   - eapply (K_keep (set_conn st s k) _ c s k); eauto.
     + intros k1 H1. rewrite G1 in H1. inversion H1; subst. exact L.
     + reflexivity.
     + cbn [cst]. intros s2 H2. inversion H2. reflexivity.
+  - reflexivity.
 Qed.
 
 Lemma after_cycle_ok st c m s k0 k : J st -> K st -> get s (conns st) = Some k0 -> loc k0 = Held c -> loc k = Held c ->
@@ -589,7 +596,7 @@ Qed.
 (** a statement event in front of an ok continuation *)
 Lemma ok_exec st s c ss k res : get s (conns st) = Some k -> loc k = Held c -> ok st res -> ok st (fst res, Exec s c ss :: snd res).
 Proof.
-  intros G L [(h' & M & E) [J1 K1]]. split; [|split; assumption]. cbn [fst snd].
+  intros G L [(h' & M & E) (J1 & K1 & C1)]. split; [|split; [assumption|split; assumption]]. cbn [fst snd].
   exists h'. split; [|exact E]. cbn [monitor]. rewrite get_holders, G. cbn [option_map]. unfold hold. rewrite L.
   rewrite Nat.eqb_refl. exact M.
 Qed.
@@ -606,9 +613,9 @@ Proof.
     destruct (T _ _ G) as [Ht Hi]. specialize (Hi L).
     set (k1 := {| truth := truth k0; belief := belief k0; loc := Held c |}).
     split; [|split].
-    + split; [|split]; cbn [fst snd].
+    + split; [|split; [|split]]; cbn [fst snd]; [| | |reflexivity].
       * cbn [monitor]. rewrite get_holders, G. cbn [option_map]. unfold hold at 1. rewrite L.
-        rewrite (not_broken_clean _ _ Ht Hi). eexists. split; [reflexivity|].
+        rewrite (not_broken_clean _ _ _ Ht Hi). eexists. split; [reflexivity|].
         rewrite holders_set_conn. apply heq_refl.
       * eapply J_set_conn; eauto.
       * intros c1 cl1 s1 G1 I1. cbn [clients set_conn] in G1. destruct (HK _ _ _ G1 I1) as (k2 & Gk & Lk).
@@ -621,8 +628,10 @@ Proof.
     assert (Hfresh: get (next st) (conns st) = None).
     { destruct (get (next st) (conns st)) eqn:E; [|reflexivity]. apply B in E. lia. }
     split; [|split].
-    + split; [|split]; cbn [fst snd].
-      * cbn [monitor]. rewrite get_holders, Hfresh. cbn [option_map]. eexists. split; [reflexivity|].
+    + split; [|split; [|split]]; cbn [fst snd]; [| | |reflexivity].
+      * cbn [monitor]. rewrite get_holders, Hfresh. cbn [option_map].
+        assert (Hc0: clean (cc st) bt0 = true) by (destruct (cc st); reflexivity). rewrite Hc0.
+        eexists. split; [reflexivity|].
         intros x. rewrite get_holders. cbn [conns get].
         unfold put. cbn [get]. destruct (Nat.eqb x (next st)) eqn:E.
         -- reflexivity.
@@ -646,7 +655,7 @@ Definition fgood (c : cid) (f : state -> sid -> conn -> state * list event) : Pr
   forall st s k, J st -> K st -> get s (conns st) = Some k -> loc k = Held c -> ok st (f st s k).
 
 Lemma ok_nop st : J st -> K st -> ok st (st, []).
-Proof. intros HJ HK. split; [|split; assumption]. cbn [fst snd monitor]. eexists. split; [reflexivity|apply heq_refl]. Qed.
+Proof. intros HJ HK. split; [|split; [assumption|split; [assumption|reflexivity]]]. cbn [fst snd monitor]. eexists. split; [reflexivity|apply heq_refl]. Qed.
 
 Lemma with_server_ok st c m cl f : J st -> K st -> get c (clients st) = Some cl -> fgood c f ->
   ok st (with_server st c m (cst cl) f).
@@ -655,10 +664,10 @@ Proof.
   - apply ok_nop; assumption.
   - destruct (checkout st c) as [[[st1 s] ev]|] eqn:Ck.
     + destruct (checkout_ok _ _ _ _ _ HJ HK Ck) as (O1 & (k & Gk & Lk) & Hc).
-      rewrite Gk. pose proof O1 as (_ & J1 & K1). cbn [fst] in J1, K1.
+      rewrite Gk. pose proof O1 as (_ & J1 & K1 & _). cbn [fst] in J1, K1.
       pose proof (Hf st1 s k J1 K1 Gk Lk) as O2. destruct (f st1 s k) as [st2 ev2].
       eapply ok_seq; eauto.
-    + split; [|split; assumption]. cbn [fst snd monitor]. eexists. split; [reflexivity|apply heq_refl].
+    + split; [|split; [assumption|split; [assumption|reflexivity]]]. cbn [fst snd monitor]. eexists. split; [reflexivity|apply heq_refl].
   - destruct (HK _ _ _ G Ec) as (k & Gk & Lk). rewrite Gk. apply Hf; assumption.
 Qed.
 
@@ -711,7 +720,7 @@ Proof.
   intros HJ HK. destruct o as [c m|c ss|c named q|c|c|c|c|c|c|c|c ss|c ss|c ss]; cbn [step].
   - (* Connect *)
     destruct (get c (clients st)) eqn:G; [apply ok_nop; assumption|].
-    split; [|split]; cbn [fst snd monitor].
+    split; [|split; [|split]]; cbn [fst snd monitor]; [| | |reflexivity].
     + eexists. split; [reflexivity|apply heq_refl].
     + exact HJ.
     + intros c1 cl1 s1 G1 I1. unfold set_client in G1. cbn [clients] in G1.
@@ -759,7 +768,7 @@ Proof.
     destruct (negb (in_txn (belief k1)) && negb (smode cl)).
     + eapply release_ok; eauto.
     + destruct (upd_held_ok st s k k1 c HJ HK Gk Lk Lk T1) as (J1 & K1 & E1 & _).
-      split; [|split; assumption]. cbn [fst snd monitor]. eexists. split; [reflexivity|exact E1].
+      split; [|split; [assumption|split; [assumption|reflexivity]]]. cbn [fst snd monitor]. eexists. split; [reflexivity|exact E1].
   - (* CopyFail *)
     destruct (get c (clients st)) as [cl|] eqn:G; [|apply ok_nop; assumption].
     destruct (cst cl) as [| |s] eqn:Ec; try (apply ok_nop; assumption).
@@ -771,12 +780,12 @@ Proof.
     destruct (negb (in_txn (belief k1)) && negb (smode cl)).
     + eapply release_ok; eauto.
     + destruct (upd_held_ok st s k k1 c HJ HK Gk Lk Lk T1) as (J1 & K1 & E1 & _).
-      split; [|split; assumption]. cbn [fst snd monitor]. eexists. split; [reflexivity|exact E1].
+      split; [|split; [assumption|split; [assumption|reflexivity]]]. cbn [fst snd monitor]. eexists. split; [reflexivity|exact E1].
   - (* Terminate *)
     destruct (get c (clients st)) as [cl|] eqn:G; [|apply ok_nop; assumption].
     destruct (cst cl) as [| |s] eqn:Ec.
     + apply ok_nop; assumption.
-    + split; [|split]; cbn [fst snd monitor].
+    + split; [|split; [|split]]; cbn [fst snd monitor]; [| | |reflexivity].
       * eexists. split; [reflexivity|apply heq_refl].
       * exact HJ.
       * intros c1 cl1 s1 G1 I1. unfold end_task, set_client in G1. cbn [clients] in G1.
@@ -789,7 +798,7 @@ Proof.
     destruct (get c (clients st)) as [cl|] eqn:G; [|apply ok_nop; assumption].
     destruct (cst cl) as [| |s] eqn:Ec.
     + apply ok_nop; assumption.
-    + split; [|split]; cbn [fst snd monitor].
+    + split; [|split; [|split]]; cbn [fst snd monitor]; [| | |reflexivity].
       * eexists. split; [reflexivity|apply heq_refl].
       * exact HJ.
       * intros c1 cl1 s1 G1 I1. unfold end_task, set_client in G1. cbn [clients] in G1.
@@ -802,7 +811,7 @@ Proof.
     destruct (get c (clients st)) as [cl|] eqn:G; [|apply ok_nop; assumption].
     destruct (cst cl) as [| |s] eqn:Ec.
     + apply ok_nop; assumption.
-    + split; [|split]; cbn [fst snd monitor].
+    + split; [|split; [|split]]; cbn [fst snd monitor]; [| | |reflexivity].
       * eexists. split; [reflexivity|apply heq_refl].
       * exact HJ.
       * intros c1 cl1 s1 G1 I1. unfold end_task, set_client in G1. cbn [clients] in G1.
@@ -814,7 +823,7 @@ Proof.
     destruct (get c (clients st)) as [cl|] eqn:G; [|apply ok_nop; assumption].
     destruct (cst cl) as [| |s] eqn:Ec.
     + apply ok_nop; assumption.
-    + split; [|split]; cbn [fst snd monitor].
+    + split; [|split; [|split]]; cbn [fst snd monitor]; [| | |reflexivity].
       * eexists. split; [reflexivity|apply heq_refl].
       * exact HJ.
       * intros c1 cl1 s1 G1 I1. unfold end_task, set_client in G1. cbn [clients] in G1.
@@ -837,9 +846,10 @@ Proof.
     pose proof (exit_holding_ok (set_conn st1 s k2) c (smode cl) s k2 J2 K2 G2 L2) as O.
     destruct (exit_holding (set_conn st1 s k2) c (smode cl) s) as [st3 ev].
     apply (ok_exec st1 s c ss k (st3, ev) Gk Lk).
-    destruct O as [(h' & M & E) [J3 K3]]. split; [|split; assumption].
+    destruct O as [(h' & M & E) (J3 & K3 & C3)]. split; [|split; [assumption|split; [assumption|exact C3]]].
     assert (E2': heq (holders (set_conn st1 s k2)) (holders st1)) by (intros x; symmetry; apply E2).
-    destruct (monitor_heq _ _ _ _ E2' M) as (h2 & M2 & E3). exists h2. split; [exact M2|].
+    change (cc (set_conn st1 s k2)) with (cc st1) in M.
+    destruct (monitor_heq _ _ _ _ _ E2' M) as (h2 & M2 & E3). exists h2. split; [exact M2|].
     intros x. rewrite <- E3. apply E.
   - (* StmtTimeout *)
     destruct (get c (clients st)) as [cl|] eqn:G; [|apply ok_nop; assumption].
@@ -851,9 +861,10 @@ Proof.
     pose proof (exit_holding_ok (set_conn st1 s k2) c (smode cl) s k2 J2 K2 G2 L2) as O.
     destruct (exit_holding (set_conn st1 s k2) c (smode cl) s) as [st3 ev].
     apply (ok_exec st1 s c ss k (st3, ev) Gk Lk).
-    destruct O as [(h' & M & E) [J3 K3]]. split; [|split; assumption].
+    destruct O as [(h' & M & E) (J3 & K3 & C3)]. split; [|split; [assumption|split; [assumption|exact C3]]].
     assert (E2': heq (holders (set_conn st1 s k2)) (holders st1)) by (intros x; symmetry; apply E2).
-    destruct (monitor_heq _ _ _ _ E2' M) as (h2 & M2 & E3). exists h2. split; [exact M2|].
+    change (cc (set_conn st1 s k2)) with (cc st1) in M.
+    destruct (monitor_heq _ _ _ _ _ E2' M) as (h2 & M2 & E3). exists h2. split; [exact M2|].
     intros x. rewrite <- E3. apply E.
   - (* ServerDies *)
     destruct (get c (clients st)) as [cl|] eqn:G; [|apply ok_nop; assumption].
@@ -865,16 +876,17 @@ Proof.
     pose proof (exit_holding_ok (set_conn st1 s k2) c (smode cl) s k2 J2 K2 G2 L2) as O.
     destruct (exit_holding (set_conn st1 s k2) c (smode cl) s) as [st3 ev].
     apply (ok_exec st1 s c ss k (st3, ev) Gk Lk).
-    destruct O as [(h' & M & E) [J3 K3]]. split; [|split; assumption].
+    destruct O as [(h' & M & E) (J3 & K3 & C3)]. split; [|split; [assumption|split; [assumption|exact C3]]].
     assert (E2': heq (holders (set_conn st1 s k2)) (holders st1)) by (intros x; symmetry; apply E2).
-    destruct (monitor_heq _ _ _ _ E2' M) as (h2 & M2 & E3). exists h2. split; [exact M2|].
+    change (cc (set_conn st1 s k2)) with (cc st1) in M.
+    destruct (monitor_heq _ _ _ _ _ E2' M) as (h2 & M2 & E3). exists h2. split; [exact M2|].
     intros x. rewrite <- E3. apply E.
 Qed.
 
 (* ------------------------------------------------------------------ every run *)
-Lemma init_J n : J (init n).
+Lemma init_J n c0 : J (init n c0).
 Proof. split; [constructor|split]; intros s k H; discriminate. Qed.
-Lemma init_K n : K (init n).
+Lemma init_K n c0 : K (init n c0).
 Proof. intros c cl s H; discriminate. Qed.
 
 Theorem run_ok : forall ops st, J st -> K st -> ok st (run st ops).
@@ -882,84 +894,84 @@ Proof.
   induction ops as [|o r IH]; intros st HJ HK; cbn [run].
   - apply ok_nop; assumption.
   - pose proof (step_ok st o HJ HK) as O1. destruct (step st o) as [st1 e1].
-    pose proof O1 as (_ & J1 & K1). cbn [fst] in J1, K1.
+    pose proof O1 as (_ & J1 & K1 & _). cbn [fst] in J1, K1.
     pose proof (IH st1 J1 K1) as O2. destruct (run st1 r) as [st2 e2].
     eapply ok_seq; eauto.
 Qed.
 
-Theorem run_monitor n ops : exists h, monitor [] (snd (run (init n) ops)) = Some h.
+Theorem run_monitor n c0 ops : exists h, monitor c0 [] (snd (run (init n c0) ops)) = Some h.
 Proof.
-  destruct (run_ok ops (init n) (init_J n) (init_K n)) as [(h & M & _) _]. exists h. exact M.
+  destruct (run_ok ops (init n c0) (init_J n c0) (init_K n c0)) as [(h & M & _) _]. exists h. exact M.
 Qed.
 
-Lemma monitor_checkout_clean : forall ev h h' s c b, monitor h ev = Some h' -> In (CheckedOut s c b) ev -> clean b = true.
+Lemma monitor_checkout_clean c0 : forall ev h h' s c b, monitor c0 h ev = Some h' -> In (CheckedOut s c b) ev -> clean c0 b = true.
 Proof.
   induction ev as [|e r IH]; intros h h' s c b M Hin; [destruct Hin|].
   cbn [monitor] in M. destruct Hin as [->|Hin].
-  - destruct (get s h) as [[c'|]|]; try discriminate; destruct (clean b); congruence.
+  - destruct (get s h) as [[c'|]|]; try discriminate; destruct (clean c0 b); congruence.
   - destruct e as [s1 c1 b1|s1 c1 ss|s1 x y z|s1 b1|s1|c1|c1].
-    + destruct (get s1 h) as [[c'|]|]; try discriminate; (destruct (clean b1); [|discriminate]); eapply IH; eauto.
+    + destruct (get s1 h) as [[c'|]|]; try discriminate; (destruct (clean c0 b1); [|discriminate]); eapply IH; eauto.
     + destruct (get s1 h) as [[c'|]|]; try discriminate. destruct (Nat.eqb c1 c'); [|discriminate]. eapply IH; eauto.
     + destruct (get s1 h) as [[c'|]|]; try discriminate. eapply IH; eauto.
-    + destruct (get s1 h) as [[c'|]|]; try discriminate. destruct (clean b1); [|discriminate]. eapply IH; eauto.
+    + destruct (get s1 h) as [[c'|]|]; try discriminate. destruct (clean c0 b1); [|discriminate]. eapply IH; eauto.
     + eapply IH; eauto.
     + eapply IH; eauto.
     + eapply IH; eauto.
 Qed.
 
-Lemma monitor_returned_clean : forall ev h h' s b, monitor h ev = Some h' -> In (Returned s b) ev -> clean b = true.
+Lemma monitor_returned_clean c0 : forall ev h h' s b, monitor c0 h ev = Some h' -> In (Returned s b) ev -> clean c0 b = true.
 Proof.
   induction ev as [|e r IH]; intros h h' s b M Hin; [destruct Hin|].
   cbn [monitor] in M. destruct Hin as [->|Hin].
-  - destruct (get s h) as [[c'|]|]; try discriminate; destruct (clean b); congruence.
+  - destruct (get s h) as [[c'|]|]; try discriminate; destruct (clean c0 b); congruence.
   - destruct e as [s1 c1 b1|s1 c1 ss|s1 x y z|s1 b1|s1|c1|c1].
-    + destruct (get s1 h) as [[c'|]|]; try discriminate; (destruct (clean b1); [|discriminate]); eapply IH; eauto.
+    + destruct (get s1 h) as [[c'|]|]; try discriminate; (destruct (clean c0 b1); [|discriminate]); eapply IH; eauto.
     + destruct (get s1 h) as [[c'|]|]; try discriminate. destruct (Nat.eqb c1 c'); [|discriminate]. eapply IH; eauto.
     + destruct (get s1 h) as [[c'|]|]; try discriminate. eapply IH; eauto.
-    + destruct (get s1 h) as [[c'|]|]; try discriminate. destruct (clean b1); [|discriminate]. eapply IH; eauto.
+    + destruct (get s1 h) as [[c'|]|]; try discriminate. destruct (clean c0 b1); [|discriminate]. eapply IH; eauto.
     + eapply IH; eauto.
     + eapply IH; eauto.
     + eapply IH; eauto.
 Qed.
 
 (** the holder map the monitor has computed when it reaches an Exec event *)
-Lemma monitor_exec_holder : forall e1 h h' s c ss e2, monitor h (e1 ++ Exec s c ss :: e2) = Some h' ->
-  exists h1, monitor h e1 = Some h1 /\ get s h1 = Some (Some c).
+Lemma monitor_exec_holder c0 : forall e1 h h' s c ss e2, monitor c0 h (e1 ++ Exec s c ss :: e2) = Some h' ->
+  exists h1, monitor c0 h e1 = Some h1 /\ get s h1 = Some (Some c).
 Proof.
   induction e1 as [|e r IH]; intros h h' s c ss e2 M; cbn [app monitor] in M.
   - exists h. split; [reflexivity|]. destruct (get s h) as [[c'|]|]; try discriminate.
     destruct (Nat.eqb c c') eqn:E; [|discriminate]. apply Nat.eqb_eq in E. subst. reflexivity.
   - cbn [monitor]. destruct e as [s1 c1 b1|s1 c1 ss1|s1 x y z|s1 b1|s1|c1|c1].
-    + destruct (get s1 h) as [[c'|]|]; try discriminate; (destruct (clean b1); [|discriminate]); eapply IH; eauto.
+    + destruct (get s1 h) as [[c'|]|]; try discriminate; (destruct (clean c0 b1); [|discriminate]); eapply IH; eauto.
     + destruct (get s1 h) as [[c'|]|]; try discriminate. destruct (Nat.eqb c1 c'); [|discriminate]. eapply IH; eauto.
     + destruct (get s1 h) as [[c'|]|]; try discriminate. eapply IH; eauto.
-    + destruct (get s1 h) as [[c'|]|]; try discriminate. destruct (clean b1); [|discriminate]. eapply IH; eauto.
+    + destruct (get s1 h) as [[c'|]|]; try discriminate. destruct (clean c0 b1); [|discriminate]. eapply IH; eauto.
     + eapply IH; eauto.
     + eapply IH; eauto.
     + eapply IH; eauto.
 Qed.
 
-Lemma clean_handoff n ops s c b : In (CheckedOut s c b) (snd (run (init n) ops)) -> clean b = true.
-Proof. destruct (run_monitor n ops) as (h & M). eapply monitor_checkout_clean; eauto. Qed.
+Lemma clean_handoff n c0 ops s c b : In (CheckedOut s c b) (snd (run (init n c0) ops)) -> clean c0 b = true.
+Proof. destruct (run_monitor n c0 ops) as (h & M). eapply monitor_checkout_clean; eauto. Qed.
 
-Lemma returned_clean n ops s b : In (Returned s b) (snd (run (init n) ops)) -> clean b = true.
-Proof. destruct (run_monitor n ops) as (h & M). eapply monitor_returned_clean; eauto. Qed.
+Lemma returned_clean n c0 ops s b : In (Returned s b) (snd (run (init n c0) ops)) -> clean c0 b = true.
+Proof. destruct (run_monitor n c0 ops) as (h & M). eapply monitor_returned_clean; eauto. Qed.
 
-Lemma idle_is_clean n ops s k : get s (conns (fst (run (init n) ops))) = Some k -> loc k = Idle -> clean (truth k) = true.
+Lemma idle_is_clean n c0 ops s k : get s (conns (fst (run (init n c0) ops))) = Some k -> loc k = Idle -> clean c0 (truth k) = true.
 Proof.
-  destruct (run_ok ops (init n) (init_J n) (init_K n)) as [_ [(_ & _ & T) _]].
-  intros G L. destruct (T _ _ G) as [Ht Hi]. eapply not_broken_clean; eauto.
+  destruct (run_ok ops (init n c0) (init_J n c0) (init_K n c0)) as [_ [(_ & _ & T) (_ & C)]]. cbn [fst cc init] in C.
+  intros G L. destruct (T _ _ G) as [Ht Hi]. rewrite C in Hi. eapply not_broken_clean; eauto.
 Qed.
 
-Lemma exec_by_holder n ops e1 s c ss e2 : snd (run (init n) ops) = e1 ++ Exec s c ss :: e2 ->
-  exists h1, monitor [] e1 = Some h1 /\ get s h1 = Some (Some c).
-Proof. intros E. destruct (run_monitor n ops) as (h & M). rewrite E in M. eapply monitor_exec_holder; eauto. Qed.
+Lemma exec_by_holder n c0 ops e1 s c ss e2 : snd (run (init n c0) ops) = e1 ++ Exec s c ss :: e2 ->
+  exists h1, monitor c0 [] e1 = Some h1 /\ get s h1 = Some (Some c).
+Proof. intros E. destruct (run_monitor n c0 ops) as (h & M). rewrite E in M. eapply monitor_exec_holder; eauto. Qed.
 
-Lemma holder_unique n ops c1 c2 cl1 cl2 s :
-  get c1 (clients (fst (run (init n) ops))) = Some cl1 -> cst cl1 = Inner s ->
-  get c2 (clients (fst (run (init n) ops))) = Some cl2 -> cst cl2 = Inner s -> c1 = c2.
+Lemma holder_unique n c0 ops c1 c2 cl1 cl2 s :
+  get c1 (clients (fst (run (init n c0) ops))) = Some cl1 -> cst cl1 = Inner s ->
+  get c2 (clients (fst (run (init n c0) ops))) = Some cl2 -> cst cl2 = Inner s -> c1 = c2.
 Proof.
-  destruct (run_ok ops (init n) (init_J n) (init_K n)) as [_ [_ HK]]. cbn [fst] in HK.
+  destruct (run_ok ops (init n c0) (init_J n c0) (init_K n c0)) as [_ [_ [HK _]]]. cbn [fst] in HK.
   intros G1 I1 G2 I2. destruct (HK _ _ _ G1 I1) as (k1 & A1 & B1). destruct (HK _ _ _ G2 I2) as (k2 & A2 & B2).
   rewrite A1 in A2. inversion A2; subst. congruence.
 Qed.
